@@ -847,3 +847,29 @@ Definition init_state (g : option geo) (can_fast can_extended : bool) (my : bm) 
      s_pex_ext := 0; s_metadata_ext := 0; s_donthave_ext := 0; s_uploadonly_ext := 0; s_upload_only := false;
      s_reqq := 128; s_reqs := reqs_nil; s_requested := []; s_fast := []; s_pex := []; s_pexst := pexst_nil;
      s_wq := 0; s_wdead := false; s_counter := 0%Z |}.
+
+(* ---------- the initial advertisement of peer.Run (after the optional extended handshake) ---------- *)
+Definition initial_adv (g : option geo) (can_fast : bool) (my : bm) : list msg :=
+  if bm_empty my then (if can_fast then [HaveNone] else [])
+  else
+    let n := match g with Some g => num_pieces g | None => 0 end in
+    let seed := match g with Some _ => bm_all my n | None => false end in
+    if can_fast && seed then [HaveAll]
+    else if bm_count my <? n / 72 then (if can_fast then [HaveNone] else []) ++ map Have (bits my)
+    else [Bitfield (bm_to_bytes (bm_extend my (n - 1)))].
+
+(* what the remote peer understands we have, message by message (None: a message that is malformed
+   for a torrent of n pieces) *)
+Fixpoint adv_set (n : N) (ms : list msg) (acc : list N) : option (list N) :=
+  match ms with
+  | [] => Some acc
+  | HaveNone :: r => adv_set n r []
+  | HaveAll :: r => adv_set n r (map N.of_nat (seq 0 (N.to_nat n)))
+  | Have i :: r => if n <=? i then None else adv_set n r (insN i acc)
+  | Bitfield bf :: r =>
+      (* exactly ceil(n/8) bytes, no spare bit set *)
+      if negb (len bf =? (n + 7) / 8) then None
+      else if existsb (fun i => n <=? i) (bits (bm_of_bytes bf)) then None
+      else adv_set n r (bits (bm_of_bytes bf))
+  | _ :: r => None
+  end.
